@@ -68,6 +68,14 @@ class Instrument(ast.NodeTransformer):
                                               keywords=[]), node)
         return node
 
+    def visit_Assign(self, node):
+        self.generic_visit(node)
+        if len(node.targets) == 1 and isinstance(node.targets[0], ast.Subscript):
+            t = node.targets[0]
+            call = ast.Call(func=self._name('__sym_setitem__'), args=[t.value, t.slice, node.value], keywords=[])
+            return ast.copy_location(ast.Expr(call), node)
+        return node
+
     def visit_Compare(self, node):
         self.generic_visit(node)
         if len(node.ops) == 1:
@@ -147,6 +155,7 @@ class _Loader(importlib.abc.Loader):
         d = module.__dict__
         d['__sym_call__'] = models.sym_call
         d['__sym_getitem__'] = models.sym_getitem
+        d['__sym_setitem__'] = models.sym_setitem
         d['__sym_in__'] = models.sym_in
         d['__sym_is__'] = models.sym_is
         d['__sym_tick__'] = models.sym_tick
